@@ -582,6 +582,9 @@ class RecurrencePlot(Cached):
             recurrence[:, self.missing_value_indices] = 0
 
         self.R = recurrence
+        #  the threshold now in force (reported by __str__, used by the
+        #  sequential RQA mode)
+        self.threshold = threshold
 
     def set_fixed_threshold_std(self, threshold_std):
         """
@@ -623,6 +626,8 @@ class RecurrencePlot(Cached):
             recurrence[self.missing_value_indices, :] = 0
             recurrence[:, self.missing_value_indices] = 0
         self.R = recurrence
+        #  no fixed threshold is in force any more
+        self.threshold = None
 
     def set_fixed_local_recurrence_rate(self, local_recurrence_rate):
         """
@@ -655,6 +660,8 @@ class RecurrencePlot(Cached):
             recurrence[self.missing_value_indices, :] = 0
             recurrence[:, self.missing_value_indices] = 0
         self.R = recurrence
+        #  no fixed threshold is in force any more
+        self.threshold = None
 
     def set_adaptive_neighborhood_size(self, adaptive_neighborhood_size,
                                        order=None):
@@ -702,6 +709,8 @@ class RecurrencePlot(Cached):
             recurrence[self.missing_value_indices, :] = 0
             recurrence[:, self.missing_value_indices] = 0
         self.R = recurrence
+        #  no fixed threshold is in force any more
+        self.threshold = None
 
     @staticmethod
     def threshold_from_recurrence_rate(distance, recurrence_rate: float):
